@@ -427,3 +427,57 @@ theorem inactive_mover_outcome (w : World) (c : MoveCall) (hI : w.WInv = true) (
         simp [MoveCall.attempts, MoveCall.agent, MoveCall.leftInactive, hd', hd, hs, hx, h1, h2]
 
 end Abmarl
+
+namespace Abmarl
+open World
+
+/-! ## Non-vacuity: a 2×2 world with one dead agent
+
+Agent 0 (encoding 1, a mover with an orientation `o`) is dead: health 0, not active, in no cell, its stored
+position still `(0,0)`.  Agent 1 (encoding 2, which 1 may not join) stands at `(0,1)`; the cell below, `(1,0)`,
+is empty. -/
+
+def exDead (o : Nat) : World :=
+  { rows := 2, cols := 2, overlap := [(1, [1])],
+    cells := [[], [1], [], []],
+    cfg := [{ enc := 1, moving := true, moveRange := 1, hasOrient := true }, { enc := 2 }],
+    st := [{ pos := (0, 0), health := 0, active := false, orient := o }, { pos := (0, 1) }] }
+
+example : (exDead 2).WInv = true ∧ (exDead 4).WInv = true := by decide
+example : ((exDead 2).stOf 0).active = false ∧ (0 : Aid) < (exDead 2).n := by decide
+/-- both outcomes, all three actors: downwards (free cell) the call raises `KeyError`; to the right (a cell the
+mover may not join) and upwards (outside the grid) it is refused and the world stays; the trivial move
+answers `True` -/
+example :
+    (match runMoveCall (exDead 2) (.move 0 (1, 0)) with | .error .keyError => true | _ => false) = true ∧
+    (match runMoveCall (exDead 2) (.move 0 (0, 1)) with
+      | .ok o => o.ret == some false && o.post == exDead 2 | _ => false) = true ∧
+    (match runMoveCall (exDead 2) (.move 0 (0, 0)) with
+      | .ok o => o.ret == some true && o.post == exDead 2 | _ => false) = true ∧
+    (match runMoveCall (exDead 2) (.cross 0 2) with | .error .keyError => true | _ => false) = true ∧
+    (match runMoveCall (exDead 2) (.cross 0 3) with
+      | .ok o => o.ret == some false && o.post == exDead 2 | _ => false) = true ∧
+    (match runMoveCall (exDead 2) (.cross 0 7) with | .error .assertion => true | _ => false) = true := by
+  decide
+/-- the drift actor: the first attempt raises (down); the first is refused (right) and the second (down, the
+stored orientation) raises; both are refused (right, then up out of the grid) and the stored orientation is
+left in the action dictionary -/
+example :
+    (match runMoveCall (exDead 4) (.drift 0 2) with | .error .keyError => true | _ => false) = true ∧
+    (match runMoveCall (exDead 2) (.drift 0 3) with | .error .keyError => true | _ => false) = true ∧
+    (match runMoveCall (exDead 2) (.drift 0 0) with | .error .keyError => true | _ => false) = true ∧
+    (match runMoveCall (exDead 4) (.drift 0 3) with
+      | .ok o => o.ret == some false && o.post == exDead 4 && o.left == 4 | _ => false) = true := by
+  decide
+/-- the judge accepts both kinds of outcome, and it is not trivially true: a returned world that differs is
+rejected -/
+example :
+    specMoveAny (exDead 2) (.cross 0 2) (runMoveCall (exDead 2) (.cross 0 2)) = true ∧
+    specMoveAny (exDead 2) (.cross 0 3) (runMoveCall (exDead 2) (.cross 0 3)) = true ∧
+    specMoveAny (exDead 2) (.cross 0 3) (.ok ⟨some false, exDead 3, 3⟩) = false := by decide
+example :
+    ((MoveCall.drift 0 3).attempts (exDead 2) = [(0, 1), (1, 0)]) ∧
+    ((exDead 2).wouldMove 0 (0, 1) = false) ∧ ((exDead 2).wouldMove 0 (1, 0) = true) ∧
+    ((exDead 2).staysPut 0 (0, 0) = true) := by decide
+
+end Abmarl
